@@ -1,6 +1,7 @@
 import CobaVerif.Model.C14
 import CobaVerif.Props.C09
 import CobaVerif.Props.C12
+import CobaVerif.Lemmas.C13
 import Mathlib.Data.String.Basic
 import Mathlib.Algebra.Order.Field.Rat
 import Mathlib.Tactic.Linarith
@@ -1173,5 +1174,278 @@ theorem feature_lookup' {η γ : Type} [DecidableEq η] (i : Nat) (hdr : List η
     · unfold featureHeaders
       rw [getElem?_dropOne hdr i k (by omega) hk]; exact hname
     · rw [getElem?_dropOne row i k hi hk]; exact hv
+
+/-! ## Phase 3 -/
+
+/-! #### the action order is a function of the label set (and the declared levels) alone -/
+
+theorem actions_order_canonical' {χ₁ χ₂ : Type} (g₁ g₂ : Option LType) (rows₁ : List (χ₁ × Label)) (rows₂ : List (χ₂ × Label))
+    (ints₁ : List (Interaction χ₁)) (ints₂ : List (Interaction χ₂))
+    (h₁ : read g₁ rows₁ = .ok ints₁) (h₂ : read g₂ rows₂ = .ok ints₂)
+    (t₁ : typeOf g₁ rows₁ = some .c) (t₂ : typeOf g₂ rows₂ = some .c)
+    (l₁ : firstLevels rows₁ = none) (l₂ : firstLevels rows₂ = none)
+    (hset : ∀ v, (∃ r ∈ rows₁, delist r.2 = .ok v) ↔ (∃ r ∈ rows₂, delist r.2 = .ok v)) :
+    ∀ x₁ ∈ ints₁, ∀ x₂ ∈ ints₂, x₁.actions = x₂.actions := by
+  intro x₁ hx₁ x₂ hx₂
+  obtain ⟨s₁, m₁⟩ := actions_eq' g₁ rows₁ ints₁ h₁ t₁ l₁ x₁ hx₁
+  obtain ⟨s₂, m₂⟩ := actions_eq' g₂ rows₂ ints₂ h₂ t₂ l₂ x₂ hx₂
+  exact Sorted.ext s₁ s₂ (fun v => by rw [m₁ v, m₂ v, hset v])
+
+theorem multilabel_order_canonical' {χ₁ χ₂ : Type} (g₁ g₂ : Option LType) (rows₁ : List (χ₁ × Label)) (rows₂ : List (χ₂ × Label))
+    (ints₁ : List (Interaction χ₁)) (ints₂ : List (Interaction χ₂))
+    (h₁ : read g₁ rows₁ = .ok ints₁) (h₂ : read g₂ rows₂ = .ok ints₂)
+    (t₁ : typeOf g₁ rows₁ = some .m) (t₂ : typeOf g₂ rows₂ = some .m)
+    (hset : ∀ v, (∃ r ∈ rows₁, ∃ vs, r.2 = .list vs ∧ v ∈ vs) ↔ (∃ r ∈ rows₂, ∃ vs, r.2 = .list vs ∧ v ∈ vs)) :
+    ∀ x₁ ∈ ints₁, ∀ x₂ ∈ ints₂, x₁.actions = x₂.actions := by
+  intro x₁ hx₁ x₂ hx₂
+  obtain ⟨s₁, m₁⟩ := multilabel_actions' g₁ rows₁ ints₁ h₁ t₁ x₁ hx₁
+  obtain ⟨s₂, m₂⟩ := multilabel_actions' g₂ rows₂ ints₂ h₂ t₂ x₂ hx₂
+  exact Sorted.ext s₁ s₂ (fun v => by rw [m₁ v, m₂ v, hset v])
+
+theorem catActions_congr (levels : List String) (k₁ k₂ : List Val) (h : ∀ v, v ∈ k₁ ↔ v ∈ k₂) :
+    catActions levels k₁ = catActions levels k₂ := by
+  unfold catActions
+  congr 1
+  apply List.filter_congr
+  intro l _
+  have := h (.str l)
+  by_cases h1 : Val.str l ∈ k₁
+  · simp [h1, this.mp h1]
+  · have h2 : Val.str l ∉ k₂ := fun hh => h1 (this.mpr hh)
+    simp [h1, h2]
+
+theorem cat_order_canonical' {χ₁ χ₂ : Type} (g₁ g₂ : Option LType) (rows₁ : List (χ₁ × Label)) (rows₂ : List (χ₂ × Label))
+    (ints₁ : List (Interaction χ₁)) (ints₂ : List (Interaction χ₂)) (levels : List String)
+    (h₁ : read g₁ rows₁ = .ok ints₁) (h₂ : read g₂ rows₂ = .ok ints₂)
+    (t₁ : typeOf g₁ rows₁ = some .c) (t₂ : typeOf g₂ rows₂ = some .c)
+    (l₁ : firstLevels rows₁ = some levels) (l₂ : firstLevels rows₂ = some levels)
+    (hset : ∀ v, (∃ r ∈ rows₁, delist r.2 = .ok v) ↔ (∃ r ∈ rows₂, delist r.2 = .ok v)) :
+    ∀ x₁ ∈ ints₁, ∀ x₂ ∈ ints₂, x₁.actions = x₂.actions := by
+  obtain ⟨k₁, hk₁, hi₁⟩ := read_cat_inv h₁ t₁ l₁
+  obtain ⟨k₂, hk₂, hi₂⟩ := read_cat_inv h₂ t₂ l₂
+  obtain ⟨m₁, n₁⟩ := labelKeys_spec hk₁
+  obtain ⟨m₂, n₂⟩ := labelKeys_spec hk₂
+  have hk : ∀ v, v ∈ k₁ ↔ v ∈ k₂ := by
+    intro v
+    rw [m₁ v, m₂ v]
+    constructor
+    · rintro ⟨r, hr, hv⟩
+      rw [labelKey_eq_delist (n₁ r hr)] at hv
+      obtain ⟨r', hr', hv'⟩ := (hset v).mp ⟨r, hr, hv⟩
+      exact ⟨r', hr', by rw [labelKey_eq_delist (n₂ r' hr')]; exact hv'⟩
+    · rintro ⟨r, hr, hv⟩
+      rw [labelKey_eq_delist (n₂ r hr)] at hv
+      obtain ⟨r', hr', hv'⟩ := (hset v).mpr ⟨r, hr, hv⟩
+      exact ⟨r', hr', by rw [labelKey_eq_delist (n₁ r' hr')]; exact hv'⟩
+  intro x₁ hx₁ x₂ hx₂
+  rw [hi₁] at hx₁
+  rw [hi₂] at hx₂
+  obtain ⟨_, _, rfl⟩ := List.mem_map.mp hx₁
+  obtain ⟨_, _, rfl⟩ := List.mem_map.mp hx₂
+  exact catActions_congr levels k₁ k₂ hk
+
+/-! #### end to end = the in-memory (X,Y) form -/
+
+theorem dense_eq_xy' (given : Option LType) (ind : Int) (table : List (List Label))
+    (ints : List (Interaction (List Label))) (h : simDense given none ind table = .ok ints) :
+    ∃ exs, DenseSplit ind table exs ∧ simPairs given none exs = .ok ints := by
+  cases table with
+  | nil =>
+    simp only [simDense, applyTake, Except.ok.injEq] at h
+    subst h
+    exact ⟨[], ⟨rfl, fun first hf => by simp at hf⟩, rfl⟩
+  | cons first rest =>
+    obtain ⟨f, i, prs, hf, hi, hr, hlen, hsp⟩ :=
+      dense_pipeline' given none ind (first :: rest) ints h (by simp [applyTake])
+    refine ⟨prs, ⟨hlen, fun first' hf' => ?_⟩, hr⟩
+    simp only [applyTake] at hf
+    rw [hf] at hf'
+    injection hf' with hf'
+    subst hf'
+    exact ⟨i, hi, hsp⟩
+
+theorem end_to_end_csv_xy' (delim : Nat) (hd1 : delim ≠ C12.DQ) (hd2 : C12.isNl delim = false) (hasHeader : Bool)
+    (rows : List (List (Bool × C12.Text))) (hok : ∀ r ∈ rows, C12.csvRowOk r = true)
+    (ind : Int) (given : Option LType) (ints : List (Interaction (List Label)))
+    (h : csvSim delim hasHeader (.index ind) given (rows.map (C12.csvWriteRow delim)) = .ok ints) :
+    ∃ exs, DenseSplit ind (((rows.map (·.map (·.2))).drop (if hasHeader then 1 else 0)).map (·.map textLabel)) exs ∧
+      simPairs given none exs = .ok ints := by
+  unfold csvSim at h
+  rw [C12.csv_roundtrip delim hd1 hd2 hasHeader rows hok] at h
+  cases hrows : rows.map (·.map (·.2)) with
+  | nil =>
+    rw [hrows] at h
+    simp only at h
+    have : simDense given none ind ([] : List (List Label)) = .ok ints := h
+    cases hasHeader <;> exact dense_eq_xy' given ind _ ints this
+  | cons first rest =>
+    rw [hrows] at h
+    cases hasHeader with
+    | true =>
+      simp only [if_true] at h
+      exact dense_eq_xy' given ind _ ints h
+    | false =>
+      simp only [Bool.false_eq_true, if_false] at h
+      exact dense_eq_xy' given ind _ ints h
+
+theorem end_to_end_libsvm_xy' (rows : List C12.SvmRow) (hok : ∀ r ∈ rows, C12.svmRowOk r = true) (given : Option LType) :
+    libsvmSim given (rows.map C12.svmWriteRow) = simPairs given none (rows.map svmPair) := by
+  unfold libsvmSim
+  rw [C12.libsvm_roundtrip rows hok]
+  rfl
+
+theorem end_to_end_manik_xy' (first : C12.Text) (rows : List C12.SvmRow) (hok : ∀ r ∈ rows, C12.svmRowOk r = true)
+    (given : Option LType) :
+    manikSim given (first :: rows.map C12.svmWriteRow) = simPairs given none (rows.map svmPair) := by
+  unfold manikSim
+  rw [C12.manik_roundtrip first rows hok]
+  rfl
+
+theorem end_to_end_arff_dense_xy' (q : Nat) (hq : q = C12.SQ ∨ q = C12.DQ) (also : Nat → Bool)
+    (attrs : List C12.AttrW) (hattr : ∀ a ∈ attrs, a.ok true = true) (hnd : (attrs.map (·.name.2)).Nodup)
+    (rows : List (Nat × List (Bool × C12.Text)))
+    (hrows : ∀ r ∈ rows, C12.arffRowOk q r.2 = true ∧ r.2.length = attrs.length)
+    (ind : Int) (given : Option LType) (ints : List (Interaction (List Label)))
+    (h : arffDenseSim (.index ind) given (attrs.map (·.line q also))
+          (rows.map (fun r => C12.arffWriteRow q also r.1 r.2)) = .ok ints) :
+    ∃ cells table, encodeRows (attrs.map (·.typ.enc true)) (rows.map (·.2.map (·.2))) = .ok cells ∧
+      rowsLabels cells = .ok table ∧
+      ∃ exs, DenseSplit ind table exs ∧ simPairs given none exs = .ok ints := by
+  unfold arffDenseSim at h
+  rw [C12.arff_header_roundtrip true q hq also attrs hattr hnd] at h
+  simp only [List.length_map, List.map_map] at h
+  rw [C12.arff_dense_roundtrip_partial q hq also attrs.length rows hrows] at h
+  simp only at h
+  have hmap : (attrs.map ((fun x => x.2) ∘ fun a => (a.name.2, a.typ.enc true))) = attrs.map (·.typ.enc true) := by
+    simp [Function.comp_def]
+  rw [hmap] at h
+  split at h
+  · cases h
+  · rename_i cells hc
+    split at h
+    · cases h
+    · rename_i table ht
+      exact ⟨cells, table, hc, ht, dense_eq_xy' given ind table ints h⟩
+
+/-! #### the lazy context object (C13 model): every access path gives the features, none gives the label -/
+
+theorem refD_lazyRow (hdr : Option (List String)) (vals : List C13.Val) :
+    C13.RefD (lazyRow hdr vals) ⟨vals, hdr.map C13.zipNames, none, none⟩ := by
+  cases hdr with
+  | none => exact C13.refD_plain vals none
+  | some ns => exact C13.refD_head (C13.refD_plain vals none) (C13.zipNames ns)
+
+theorem lazy_context' (hdr : Option (List String)) (vals : List C13.Val) (i : Nat) (t : Option String)
+    (hi : i < vals.length) :
+    (C13.DRow.label (lazyRow hdr vals) i t).feats = .ok (lazyContext hdr vals i) ∧
+    (C13.DRow.label (lazyRow hdr vals) i t).labelVal = C13.idx vals i ∧
+    (lazyContext hdr vals i).iter = .ok (vals.eraseIdx i) ∧
+    (lazyContext hdr vals i).len = (vals.eraseIdx i).length ∧
+    (∀ j, (lazyContext hdr vals i).getPos j = C13.idx (vals.eraseIdx i) j) ∧
+    (lazyContext hdr vals i).headers.toOption = (hdr.map C13.zipNames).map (C13.DRow.shiftHdr i) := by
+  have h := C13.refD_dropOne (refD_lazyRow hdr vals) i hi
+  refine ⟨rfl, ?_, h.iter, h.len, h.pos, h.hdr⟩
+  show (lazyRow hdr vals).getPos i = C13.idx vals i
+  exact (refD_lazyRow hdr vals).pos i
+
+theorem dget_filterMap_none {κ ν : Type} [DecidableEq κ] (f : κ × ν → Option (κ × ν)) (h : List (κ × ν)) (s : κ)
+    (hname : ∀ p q, f p = some q → q.1 = p.1) (hdrop : ∀ p ∈ h, p.1 = s → f p = none) :
+    C13.dget (h.filterMap f) s = none := by
+  induction h with
+  | nil => rfl
+  | cons p ps ih =>
+    have ihp := ih (fun q hq => hdrop q (List.mem_cons_of_mem _ hq))
+    rw [List.filterMap_cons]
+    cases hf : f p with
+    | none => exact ihp
+    | some q =>
+      obtain ⟨qa, qb⟩ := q
+      have hq : qa = p.1 := hname p (qa, qb) hf
+      have hne : ¬ qa = s := by
+        intro e
+        have := hdrop p List.mem_cons_self (by rw [← hq]; exact e)
+        rw [hf] at this
+        cases this
+      simp only [C13.dget, hne, if_false]
+      exact ihp
+
+theorem shiftHdr_names (i : Nat) (p q : String × Nat)
+    (h : (fun p : String × Nat => if p.2 = i then none else some (p.1, if p.2 < i then p.2 else p.2 - 1)) p = some q) :
+    q.1 = p.1 := by
+  simp only at h
+  split at h
+  · cases h
+  · injection h with h; rw [← h]
+
+theorem lazy_context_label_hidden' (ns : List String) (vals : List C13.Val) (i : Nat) (l : String)
+    (hn : ns.Nodup) (hl : ns[i]? = some l) :
+    (lazyContext (some ns) vals i).getName l = .error .keyError := by
+  have hd : C13.dget (C13.DRow.shiftHdr i (C13.zipNames ns)) l = none := by
+    unfold C13.DRow.shiftHdr
+    apply dget_filterMap_none _ _ _ (shiftHdr_names i)
+    intro p hp hpl
+    have hp' : ns[p.2]? = some p.1 := by
+      have := List.mem_zipIdx_iff_getElem?.mp (show (p.1, p.2) ∈ ns.zipIdx from hp)
+      simpa using this
+    obtain ⟨h1, h1v⟩ := List.getElem?_eq_some_iff.mp hp'
+    obtain ⟨h2, h2v⟩ := List.getElem?_eq_some_iff.mp hl
+    have : p.2 = i := by
+      apply (List.Nodup.getElem_inj_iff hn).mp
+      rw [h1v, h2v, hpl]
+    simp [this]
+  simp only [lazyContext, lazyRow, C13.DRow.getName, C13.DRow.headers, hd]
+
+theorem dget_filterMap_some {κ ν : Type} [DecidableEq κ] (f : κ × ν → Option (κ × ν)) (h : List (κ × ν)) (s : κ) (k k' : ν)
+    (hname : ∀ p q, f p = some q → q.1 = p.1) (huniq : ∀ p ∈ h, p.1 = s → p = (s, k)) (hmem : (s, k) ∈ h)
+    (hf : f (s, k) = some (s, k')) :
+    C13.dget (h.filterMap f) s = some k' := by
+  induction h with
+  | nil => cases hmem
+  | cons p ps ih =>
+    rw [List.filterMap_cons]
+    by_cases hp : p.1 = s
+    · have := huniq p List.mem_cons_self hp
+      subst this
+      rw [hf]
+      simp [C13.dget]
+    · have hmem' : (s, k) ∈ ps := by
+        rcases List.mem_cons.mp hmem with h | h
+        · exact absurd (by rw [← h]) hp
+        · exact h
+      have ihp := ih (fun q hq => huniq q (List.mem_cons_of_mem _ hq)) hmem'
+      cases hfp : f p with
+      | none => exact ihp
+      | some q =>
+        obtain ⟨qa, qb⟩ := q
+        have hq : qa = p.1 := hname p (qa, qb) hfp
+        have hne : ¬ qa = s := by rw [hq]; exact hp
+        simp only [C13.dget, hne, if_false]
+        exact ihp
+
+theorem lazy_context_name' (ns : List String) (vals : List C13.Val) (i k : Nat) (name : String) (v : C13.Val)
+    (hn : ns.Nodup) (hi : i < vals.length) (hk : k ≠ i) (hname : ns[k]? = some name) (hv : vals[k]? = some v) :
+    (lazyContext (some ns) vals i).getName name = .ok v := by
+  have hd : C13.dget (C13.DRow.shiftHdr i (C13.zipNames ns)) name = some (if k < i then k else k - 1) := by
+    unfold C13.DRow.shiftHdr
+    apply dget_filterMap_some _ _ _ k _ (shiftHdr_names i)
+    · intro p hp hpl
+      have hp' : ns[p.2]? = some p.1 := by
+        have := List.mem_zipIdx_iff_getElem?.mp (show (p.1, p.2) ∈ ns.zipIdx from hp)
+        simpa using this
+      obtain ⟨h1, h1v⟩ := List.getElem?_eq_some_iff.mp hp'
+      obtain ⟨h2, h2v⟩ := List.getElem?_eq_some_iff.mp hname
+      have : p.2 = k := by
+        apply (List.Nodup.getElem_inj_iff hn).mp
+        rw [h1v, h2v, hpl]
+      exact Prod.ext hpl this
+    · exact List.mem_zipIdx_iff_getElem?.mpr (by simpa using hname)
+    · simp [hk]
+  have hpos := (lazy_context' (some ns) vals i none hi).2.2.2.2.1 (if k < i then k else k - 1)
+  have hget : C13.idx (vals.eraseIdx i) (if k < i then k else k - 1) = .ok v := by
+    unfold C13.idx
+    rw [List.eraseIdx_eq_take_drop_succ, getElem?_dropOne vals i k hi hk, hv]
+  rw [hget] at hpos
+  simp only [lazyContext, lazyRow, C13.DRow.getName, C13.DRow.headers, hd]
+  exact hpos
 
 end Coba.C14
